@@ -168,10 +168,50 @@ func c17GenNameFacts() (string, string) {
 		{"c17_body_WithEnvFile", funcBody(of, "", "WithEnvFile")},
 		{"c17_body_LoadProject", funcBody(of, "ProjectOptions", "LoadProject")},
 		{"c17_body_prepare", funcBody(of, "ProjectOptions", "prepare")},
+		// round 6: the profile options (COMPOSE_PROFILES) and what the loaded project does with the selection
+		{"c17_body_WithDefaultProfiles", funcBody(of, "", "WithDefaultProfiles")},
+		{"c17_body_WithProfiles", funcBody(of, "", "WithProfiles")},
+		{"c17_body_WithLoadOptions", funcBody(of, "", "WithLoadOptions")},
+		{"c17_body_loaderWithProfiles", funcBody(ldf, "", "WithProfiles")},
+		{"c17_body_HasProfile", funcBody(parse("types/project.go"), "ServiceConfig", "HasProfile")},
+		{"c17_body_LoadModel", funcBody(of, "ProjectOptions", "LoadModel")},
+		{"c17_body_ProjectWithProfiles", funcBody(parse("types/project.go"), "Project", "WithProfiles")},
 	} {
 		fmt.Fprintf(&b, "def %s : String := %s\n", e.name, leanStr(e.body))
 	}
 	b.WriteString("\n")
+	// round 6: where the resolved project name enters the model that Normalize names the resources from
+	// (loader.load: the statements guarded by `!opts.SkipNormalization`, up to the call of Normalize), the
+	// format of an implicit resource name, and the COMPOSE_PROFILES constant
+	nameInto := []string{}
+	if fd := c17FindFunc(ldf, "load"); fd != nil {
+		ast.Inspect(fd.Body, func(n ast.Node) bool {
+			is, ok := n.(*ast.IfStmt)
+			if !ok || strings.Join(strings.Fields(src(is.Cond)), "") != "!opts.SkipNormalization" {
+				return true
+			}
+			for _, st := range is.Body.List {
+				t := strings.Join(strings.Fields(src(st)), " ")
+				nameInto = append(nameInto, t)
+				if strings.Contains(t, "Normalize(") {
+					break
+				}
+			}
+			return false
+		})
+	}
+	fmt.Fprintf(&b, "/-- loader.load: from `if !opts.SkipNormalization {` to the call of Normalize -/\ndef c17_nameIntoModel : List String := [%s]\n", joinLean(nameInto))
+	resFmt := []string{}
+	if fd := c17FindFunc(parse("loader/normalize.go"), "setNameFromKey"); fd != nil {
+		ast.Inspect(fd.Body, func(n ast.Node) bool {
+			if c, ok := n.(*ast.CallExpr); ok && src(c.Fun) == "fmt.Sprintf" {
+				resFmt = append(resFmt, strings.Join(strings.Fields(src(c)), " "))
+			}
+			return true
+		})
+	}
+	fmt.Fprintf(&b, "/-- setNameFromKey: the Sprintf calls that build an implicit resource name -/\ndef c17_resourceNameFmt : List String := [%s]\n", joinLean(resFmt))
+	fmt.Fprintf(&b, "def c17_composeProfilesConst : String := %s\n\n", leanStr(c17ConstString(parse("consts/consts.go"), "ComposeProfiles")))
 	fmt.Fprintf(logw, "name facts: regex %q cutset %q calls %d conds %d\n", regex, cutset, len(calls), len(conds))
 	b.WriteString("end CV.Gen\n")
 	return "NameFacts.lean", b.String()
